@@ -144,7 +144,7 @@ func init() {
 					u = append(u, "string class never dumped: "+c.name)
 				}
 			}
-			for _, c := range []string{"roundtrips", "dump_with_if", "dump_with_list", "dump_events_mode", "folded_to_scalar", "zero_operand_ops", "deep_ladder_dumps"} {
+			for _, c := range []string{"roundtrips", "dump_with_if", "dump_with_list", "dump_events_mode", "folded_to_scalar", "zero_operand_ops", "deep_ladder_dumps", "aliased_list_constants"} {
 				if m.C(c) == 0 {
 					u = append(u, c+" = 0")
 				}
@@ -201,7 +201,24 @@ func c13Tree(r *rand.Rand, k int) (*Node, string) {
 			longS[i] = fmt.Sprintf("s%d", r.Intn(500))
 		}
 		ex := func() *Node { return Lit(extremeInts[r.Intn(len(extremeInts))]) }
-		switch r.Intn(7) {
+		switch r.Intn(9) {
+		case 7:
+			// two named list constants that share one backing array (a ranking and its head: KALL_HEAD = KALL[:k]), both
+			// used in one expression; buildConfig keeps the sharing
+			k := 1 + r.Intn(len(long)-1)
+			all, head := ConstRef("KALL", long), ConstRef("KALL_HEAD", append([]int64{}, long[:k]...))
+			t := Op("or", TBool, Op("in", TBool, Var("i0", TInt), head), Op("and", TBool, Op("in", TBool, Var("i1", TInt), all), Var("b0", TBool)))
+			if r.Intn(2) == 0 {
+				t = Op("and", TBool, Op("in", TBool, Var("i0", TInt), all), Op("not", TBool, Op("in", TBool, Var("i0", TInt), head)))
+			}
+			return t, "lists-extremes"
+		case 8:
+			k := 1 + r.Intn(len(longS)-1)
+			all, head := ConstRef("KALLS", longS), ConstRef("KALLS_HEAD", append([]string{}, longS[:k]...))
+			if r.Intn(2) == 0 {
+				return Op("and", TBool, Op("in", TBool, Var("s0", TStr), all), Op("not", TBool, Op("in", TBool, Var("s0", TStr), head))), "lists-extremes"
+			}
+			return Op("or", TBool, Op("overlap", TBool, Var("ls0", TSList), head), Op("overlap", TBool, all, Var("ls0", TSList))), "lists-extremes"
 		case 4:
 			return Op("in", TBool, Var("s0", TStr), Lit(longS)), "lists-extremes"
 		case 5:
@@ -295,7 +312,29 @@ func c13Run(w *W, idx int) {
 	w.Inc("programs")
 	w.Inc("programs_" + stratum)
 	bs := genBindings(r, tree, 4, 0)
-	// give string variables values from the literals of the program
+	// probes from the tail and the head of a shared list constant
+	cm := map[string]interface{}{}
+	tree.Consts(cm)
+	if l, ok := cm["KALL"].([]int64); ok {
+		w.Inc("aliased_list_constants")
+		for i := range bs {
+			bs[i].Vals["i0"] = l[(len(l)-1)*(i%2)+(1-2*(i%2))*r.Intn(1+len(l)/4)]
+			if _, ok := bs[i].Vals["i1"]; ok {
+				bs[i].Vals["i1"] = l[len(l)-1-r.Intn(1+len(l)/4)]
+			}
+		}
+	}
+	if l, ok := cm["KALLS"].([]string); ok {
+		w.Inc("aliased_list_constants")
+		for i := range bs {
+			if _, ok := bs[i].Vals["s0"]; ok {
+				bs[i].Vals["s0"] = l[(len(l)-1)*(i%2)+(1-2*(i%2))*r.Intn(1+len(l)/4)]
+			}
+			if _, ok := bs[i].Vals["ls0"]; ok {
+				bs[i].Vals["ls0"] = []string{l[len(l)-1-r.Intn(1+len(l)/4)], "zz-none"}
+			}
+		}
+	}
 	undefined := r.Intn(2) == 0
 	for _, o := range allOptSets() {
 		evs := []int{0}
